@@ -9,6 +9,10 @@ const parsec_termdet_base_component_t parsec_termdet_local_component;
 void parsec_pins_instrument(struct parsec_execution_stream_s *es, PARSEC_PINS_FLAG method_flag, parsec_task_t *task){ (void)es; (void)method_flag; (void)task; }
 void parsec_pins_taskpool_init(parsec_taskpool_t *tp){ (void)tp; }
 void parsec_pins_taskpool_fini(parsec_taskpool_t *tp){ (void)tp; }
+void parsec_pins_thread_fini(struct parsec_execution_stream_s *es){ (void)es; }
+/* data copies: tasks of these scenarios have no flows */
+int parsec_data_release_self_contained_data(parsec_data_t *data){ (void)data; VASSUME(0); return 0; }
+int parsec_mca_device_is_gpu(uint32_t devindex){ (void)devindex; return 0; }
 void parsec_output_verbose(int verbose_level, int output_id, const char *format, ...){ (void)verbose_level; (void)output_id; (void)format; }
 /* a scheduler is always selected before the code under test runs: the MCA repository must not be reached */
 mca_base_component_t **mca_components_open_bytype(char *type){ (void)type; VASSUME(0); return NULL; }
